@@ -4,9 +4,15 @@ From Coq Require Import PrimFloat Uint63 FloatOps SpecFloat.
 From AQ Require Import lib.Base lib.Tok model.RangeSet model.RecBase model.Pacer model.Reno model.Cubic
   model.Recovery gen.C08Consts.
 
+(* powers of two as literals (vm_compute would otherwise recompute them on every call) *)
+Definition two51 : Z := Eval vm_compute in 2 ^ 51.
+Definition two52 : Z := Eval vm_compute in 2 ^ 52.
+Definition two62 : Z := Eval vm_compute in 2 ^ 62.
+Definition two63 : Z := Eval vm_compute in 2 ^ 63.
+
 (* float(int): correctly rounded (sticky bit) for integers of any size *)
 Definition f_of_nonneg (z : Z) : float :=
-  if z <? 2 ^ 62 then PrimFloat.of_uint63 (Uint63.of_Z z)
+  if z <? two62 then PrimFloat.of_uint63 (Uint63.of_Z z)
   else
     let k := Z.log2 z - 61 in
     let hi := Z.shiftr z k in
@@ -28,12 +34,12 @@ Definition f_trunc (x : float) : option Z :=
 (* the IEEE bit pattern as a non-negative integer (NaN canonicalised) *)
 Definition f_bits (x : float) : Z :=
   match Prim2SF x with
-  | S754_zero s => if s then 2 ^ 63 else 0
-  | S754_infinity s => (if s then 2 ^ 63 else 0) + 2047 * 2 ^ 52
-  | S754_nan => 4095 * 2 ^ 51
+  | S754_zero s => if s then two63 else 0
+  | S754_infinity s => (if s then two63 else 0) + 2047 * two52
+  | S754_nan => 4095 * two51
   | S754_finite s m e =>
-      (if s then 2 ^ 63 else 0) +
-      (if Zpos m <? 2 ^ 52 then Zpos m else (e + 1075) * 2 ^ 52 + (Zpos m - 2 ^ 52))
+      (if s then two63 else 0) +
+      (if Zpos m <? two52 then Zpos m else (e + 1075) * two52 + (Zpos m - two52))
   end.
 
 Definition f_const (c : fconst) : float :=
@@ -85,6 +91,19 @@ Fixpoint exec_ops (st : rec) (ops : list (rop (T:=float))) : list Z :=
       (status :: obs st') ++ out_evs evs ++ out_optf r ++ exec_ops st' t
   end.
 End Print.
+
+(* monomorphic op constructors: arguments are parsed in the scopes bound to their types, so case files
+   need no per-literal scope annotations (parsing is the dominant cost of a case) *)
+Definition fSend (sp pn : Z) (i a c : bool) (t : float) (b : Z) : rop (T:=float) := OSend sp pn i a c t b.
+Definition fAck (sp : Z) (r : list (Z * Z)) (d n : float) : rop (T:=float) := OAck sp r d n.
+Definition fTimeout (n : float) : rop (T:=float) := OTimeout n.
+Definition fDiscard (sp : Z) : rop (T:=float) := ODiscard sp.
+Definition fResched (n : float) : rop (T:=float) := OResched n.
+Definition fPcav (b : bool) : rop (T:=float) := OSetPcav b.
+Definition fMad (v : float) : rop (T:=float) := OSetMad v.
+Definition fNextSend (n : float) : rop (T:=float) := ONextSend n.
+Definition fAfterSend (n : float) : rop (T:=float) := OAfterSend n.
+Definition fOr (tag : Z) (a r : float) : Z * float * float := (tag, a, r).
 
 (* entry points used by harness/props/c08.py *)
 Definition run_reno (mss : Z) (initial_rtt : float) (pcav : bool) (ops : list rop) : list Z :=
